@@ -98,6 +98,11 @@ def iena_lines(ctx):
         f = {k: "5" for k, _ in IENA_HDR}
         f["parameters"] = "[" + mparam(rng, n) + ";" + mparam(rng, 3) + "]"
         lines.append(gen.H("IENAM", gen.sets(f) + ["pack", "obs"]))
+    # directed: an EMPTY dataset in the first / a middle / the last position, and only empty datasets
+    for shape in ([0], [0, 0], [3, 0], [0, 3], [2, 0, 5], [1, 4, 0], [0, 0, 0], [5, 0, 0]):
+        f = {k: str(rng.boundary(b)) for k, b in IENA_HDR}
+        f["parameters"] = "[" + ";".join(mparam(rng, n) for n in shape) + "]"
+        lines.append(gen.H("IENAM", gen.sets(f) + ["pack", "obs"]))
     return lines
 
 def check_iena_layout(args):
@@ -203,6 +208,15 @@ def oracles_C01(ctx, hints):
         if w:
             fails.append(Failure("ienam_layout", args, w, {"class": "IENAM", "check": "layout"}))
             break
+    else:
+        for shape in ([0], [0, 0], [3, 0], [0, 3], [2, 0, 5], [1, 4, 0], [0, 0, 0], [5, 0, 0]):
+            f = {k: rng.boundary(b) for k, b in IENA_HDR}
+            args = {"fields": f, "params": [[rng.boundary(16), rng.boundary(16), rng.bytes_(m).hex()] for m in shape]}
+            n += 1
+            w = check_ienam_layout(args)
+            if w:
+                fails.append(Failure("ienam_layout", args, w, {"class": "IENAM", "check": "layout"}))
+                break
     ctx.count("oracle_evaluations", n)
     return fails
 
